@@ -8,7 +8,7 @@ evaluates the Bool specs of Spec/Text.lean on the implementation's output (O).
 
 Families (case id = "<family>:<number>")
   C18x  exhaustive pairs over strings <= 3 from {a,A,b,B,1,' '}: one case = one left string x all 259 right strings
-  C18t  (thorough) exhaustive triples over strings <= 2: one case = one (a, b) x all 43 c
+  C18t  exhaustive triples over strings <= 2: one case = one (a, b) x all 43 c
   C18r  random longer ASCII strings, pairs and triples (re-casings, prefixes, neighbours of the case boundary)
   C17x  exhaustive pairs of records over <= 2 units x <= 2 entries, 3-value domain: one case = one left record x all 196
         (left built in insertion order a,b; right in order b,a; absent / explicitly empty both enumerated)
@@ -17,6 +17,7 @@ Families (case id = "<family>:<number>")
   C17r  random larger records (ints or InstrState values), re-orderings, edits
   C14g  instruction lists x whitespace renderings (+ single-fault corruptions); the text is produced by the Lean
         `renderProgram` the round-trip theorem is stated with
+  C14c  one case per ASCII code point c: lines that put c in every position where being a blank matters (K only)
   C14w  raw lines over a blank/comma/token alphabet (operands with inner blanks, stray commas, odd blanks); K only
   C15i  ISA tables x capability sets (+ programs compiled with the loaded ISA)
   C15a  get_abilities on small ProcessorDesc objects (+ load_isa with the result)
@@ -103,7 +104,15 @@ def eval_icase(inp):
     if fails:
         idx = [f["i"] for f in fails][:5]
         small = {"kind": "icase", "items": [items[i] for i in idx]}
-    tags = ["pairs:%d" % sum(1 for it in items if len(it) == 2), "triples:%d" % sum(1 for it in items if len(it) == 3)]
+    tags = []
+    if any(len(it) == 2 for it in items):
+        tags.append("has-pairs")
+    if any(len(it) == 3 for it in items):
+        tags.append("has-triples")
+    if any(len(s) > 3 for it in items for s in it):
+        tags.append("long-strings")
+    if any(o[0][0] == "1" and o[1] != o[2] for ob in impl for o in ob):
+        tags.append("has-eq-differently-spelled")
     return {"props": props, "tags": tags, "impl": [impl[f["i"]] for f in fails[:5]], "model": fails[:5], "small": small}
 
 
@@ -193,7 +202,14 @@ def eval_bag(inp):
         remap = {x: n for n, x in enumerate(used)}
         small = {"kind": "bag", "vt": vt, "recs": [recs[x] for x in used], "pairs": [[remap[a], remap[b]] for a, b in keep]}
     eq_n = sum(1 for p in ipairs if p[0][0] == "1")
-    tags = ["vt:" + vt, "eq:%d" % eq_n, "ne:%d" % (len(ipairs) - eq_n)]
+    tags = ["vt:" + vt, "units<=%d" % max([len(r) for r in recs] + [0]),
+            "entries<=%d" % max([len(vs) for r in recs for _k, vs in r] + [0])]
+    if eq_n:
+        tags.append("has-equal-pairs")
+    if eq_n < len(ipairs):
+        tags.append("has-unequal-pairs")
+    if any(any(not vs for _k, vs in r) for r in recs):
+        tags.append("has-explicit-empty")
     return {"props": props, "tags": tags, "impl": None, "model": fails[:4], "small": small}
 
 
@@ -299,7 +315,8 @@ def gen_program_gen(rng, thorough=False):
     return {"instrs": instrs, "ws": ws, "tail": tail, "fault": fault}
 
 
-RAW_ALPHA = ["a", "B", "b", "r1", "R1", ",", ",", " ", " ", "\t", "\x0c", "\x1f", "x", ", ", " ,", "1", "\r"]
+RAW_ALPHA = ["a", "B", "b", "r1", "R1", ",", ",", " ", " ", "\t", "\x0c", "\x1f", "x", ", ", " ,", "1", "\r",
+             "\x08", "\x0e", "\x1b", "\x1c", "!", "\x7f", "\x00", "\x0b"]
 
 
 def gen_raw_lines(rng):
@@ -418,7 +435,7 @@ def eval_isa(inp):
     """load_isa (+ compile_program of every program in inp["progs"] with the loaded ISA, or with inp["rawisa"])"""
     isa, caps = inp["isa"], inp["caps"]
     props = _blank_props()
-    tags = ["isa:%d" % len(isa)]
+    tags = ["isa:%s" % ("0" if not isa else "1-3" if len(isa) <= 3 else "4-8")]
     impl = impl_load_isa(isa, caps, inp.get("as_set", False) and len({c.lower() for c in caps}) == len(caps))
     ans = core.driver().ask({"op": "isa", "isa": isa, "caps": caps, "impl": impl})
     merge(props, "C15", ans["k"]["C15"], ans["o"]["C15"], len(isa) > 0)
@@ -511,7 +528,10 @@ def eval_abilities(inp):
     ans = core.driver().ask({"op": "abilities", "ports": ports, "impl": impl})
     props = _blank_props()
     merge(props, "C15", ans["k"]["C15"], ans["o"]["C15"], len(ports) > 0)
-    tags = ["ports:%d" % len(ports), "abilities:%d" % len(impl)]
+    tags = ["ports:%s" % ("0" if not ports else "1-2" if len(ports) <= 2 else "3+"),
+            "abilities:%s" % ("0" if not impl else "1-2" if len(impl) <= 2 else "3+")]
+    if len({c for p in ports for c in p}) > len(impl):
+        tags.append("case-variants-merged")
     # the composition used by hw_loading: load_isa(isa, get_abilities(processor))
     isa = inp.get("isa", [])
     sub = eval_isa({"isa": isa, "caps": impl, "as_set": True, "progs": []})
@@ -602,7 +622,7 @@ def eval_yaml(inp):
     if o is None and not same_proc:
         o = "read_processor built a different processor than load_proc_desc"
     merge(props, "C15", ans["k"]["C15"], o, len(isa_items) > 0)
-    tags = ["yaml:" + ("ok" if "ok" in impl else impl["err"]["class"]), "isa:%d" % len(isa_items)]
+    tags = ["yaml:" + ("ok" if "ok" in impl else impl["err"]["class"])]
     return {"props": props, "tags": tags, "impl": impl, "model": ans["model"], "small": None}
 
 
@@ -787,11 +807,11 @@ def _corpus():
 def cases(tier: str) -> list:
     th = tier == "thorough"
     fam = {
-        "C18x": 259, "C18r": 400 if th else 40, "C18t": 43 * 43 if th else 0,
-        "C17x": 196, "C17y": 2744 if th else 0, "C17n": 3000 if th else 60, "C17r": 1500 if th else 150,
-        "C14g": 30000 if th else 3000, "C14w": 10000 if th else 1000,
-        "C15i": 25000 if th else 2500, "C15a": 5000 if th else 500, "C15y": 3000 if th else 300,
-        "C16r": 15000 if th else 1500, "C16b": 5000 if th else 500,
+        "C18x": 259, "C18r": 2000 if th else 200, "C18t": 43 * 43,
+        "C17x": 196, "C17y": 2744 if th else 0, "C17n": 4000 if th else 400, "C17r": 6000 if th else 600,
+        "C14c": 128 * 7, "C14g": 120000 if th else 12000, "C14w": 40000 if th else 4000,
+        "C15i": 100000 if th else 10000, "C15a": 20000 if th else 2000, "C15y": 10000 if th else 1000,
+        "C16r": 60000 if th else 6000, "C16b": 20000 if th else 2000,
     }
     out = []
     for f, n in fam.items():
@@ -845,6 +865,11 @@ def gen_input(case, tier="quick"):
         return fam, {"kind": "bag", "vt": vt, "recs": recs, "pairs": pairs}
     if fam == "C14g":
         return fam, {"kind": "parse", "gen": gen_program_gen(rng, th), "file": rng.random() < 0.3}
+    if fam == "C14c":
+        c = chr(i // 7)
+        tmpl = ["add%sr1,r2\n" % c, "%ssub r1%s,%sR2%s\n" % (c, c, c, c), c + "\n", "%s%s" % (c, c),
+                "mul r1,%s,r3" % c, "x%s\n" % c, "div R1 %s R1,r1\n" % c][i % 7]
+        return fam, {"kind": "parse", "lines": ["nop R1\n", tmpl, "end r1, r2"], "file": False}
     if fam == "C14w":
         return fam, {"kind": "parse", "lines": gen_raw_lines(rng), "file": rng.random() < 0.3}
     if fam == "C15i":
